@@ -380,6 +380,29 @@ pub fn kind_at(root: &GreenNode, off: u32) -> TokenKind {
     }
 }
 
+/// The comma of a one-element tuple expression / type / pattern `(x,)` is not an optional separator: without it the
+/// text is a parenthesised expression.  `i` is the index of a comma directly before a closing bracket.
+fn mandatory_single_tuple_comma(code: &[Tok], i: usize) -> bool {
+    let mut depth = 0usize;
+    let mut j = i;
+    while j > 0 {
+        j -= 1;
+        let t = &code[j];
+        if t.close {
+            depth += 1;
+        } else if t.text == "(" || t.text == "[" || t.text == "{" || t.text == "|" {
+            if depth == 0 {
+                return t.text == "("
+                    && matches!(t.parent, TokenKind::TUPLE_EXPR | TokenKind::TUPLE_TYPE | TokenKind::TUPLE_PATTERN);
+            }
+            depth -= 1;
+        } else if t.text == "," && depth == 0 {
+            return false; // more than one element
+        }
+    }
+    false
+}
+
 /// Drop optional trailing commas: a `,` directly before a closing bracket; an empty lambda
 /// parameter list `| |` is the same as `||`.
 fn normalise(code: &[Tok]) -> Vec<Tok> {
@@ -395,7 +418,7 @@ fn normalise(code: &[Tok]) -> Vec<Tok> {
         }
         if t.text == "," && !t.close {
             if let Some(n) = code.get(i + 1) {
-                if n.close {
+                if n.close && !mandatory_single_tuple_comma(code, i) {
                     continue;
                 }
             }
